@@ -125,6 +125,20 @@ CLAIMED = {
             'Trusted: sx engine, the json model (its contract is the documented behaviour of the json module on plain data). '
             'Outside: bytes fields (not JSON), lower-case enum member names (documented), Tuple[T, ...], more than one level of generics.',
             'DESIGN.md §6 C15'),
+    'C05': ('Liveness is decomposed into safety/progress lemmas, each decided by the solver on the real code with symbolic payload '
+            'length, MTU, clock, timeouts and send times: both send_guaranteed APIs accept every length and queue messages that '
+            'reassemble to the payload with a retry obligation; the queue drains one datagram per tick for every length and MTU '
+            '(no size is left unsent); a guaranteed message is always queued, in flight or acknowledged and a timeout re-queues the '
+            'identical (seq, type, payload); every datagram older than the message timeout is resolved by the next tick (client and '
+            'server variants) and none earlier; a genuine fresh datagram delivers all its messages through the real codec; a bounded '
+            'two-endpoint scenario with symbolic losses in both directions followed by a healed network delivers exactly once. '
+            'The lemma "an incomplete fragment context is kept while retransmission is possible" holds only up to the context age '
+            'limit: known finding F6c (open), its complement is proven.',
+            'The final composition (therefore eventually delivered) is a paper argument written in the evidence explanation, not machine '
+            'checked. Trusted: sx engine, ideal AEAD, clock = exact non-decreasing reals. Bounds: <= 2 (thorough 5) fragments in the API '
+            'lemma, <= 3 (thorough 8) in the drain lemma, <= 2 (3) pending datagrams, scenario of 5 (7) ticks. Outside: starvation by an '
+            'application that saturates the queue forever.',
+            'DESIGN.md §6 C05'),
 }
 
 NOT_YET = 'check not built yet in this round (planned: see DESIGN.md §6); not claimed'
